@@ -2,6 +2,8 @@
 base strings, known-finding signatures (predicates over a failing case)."""
 
 KIND_NAMES = {
+    301: 'C03/cached_read: cachedpiece.ReadAt vs Cache.cached_read',
+    302: 'C03/cache: piececache.Cache vs Cache.cache_get (LRU)',
     1801: 'C18/blocklist: blocklist.Reload+Blocked vs Stree.reload/contains',
     1802: 'C18/stree: stree.Contains vs Stree.build/contains',
     1803: 'C18/addrlist: addrlist Push/Pop/Reset vs AddrList.v',
@@ -32,6 +34,11 @@ TRUSTED_COMMON = [
 ]
 
 PROPS = {
+    'C03': {
+        'kinds': {301: {'quick': 3000, 'thorough': 60000}, 302: {'quick': 3000, 'thorough': 60000}},
+        'trusted': ['container/heap keeps the least recently used item at index 0; time.AfterFunc TTL expiry is not exercised (TTL one hour)'],
+        'assumptions': ['0 < ReadCacheBlockSize < 2^31; piece length < 2^32'],
+    },
     'C18': {
         'kinds': {1801: {'quick': 3000, 'thorough': 60000}, 1802: {'quick': 4000, 'thorough': 100000}, 1803: {'quick': 3000, 'thorough': 60000}},
         'trusted': ['net.ParseCIDR / bufio.Scanner / bytes.TrimSpace (the model starts from parsed rules)', 'slices.Sort returns the sorted permutation'],
